@@ -4,7 +4,7 @@ from __future__ import annotations
 
 import ast
 
-from ..astutil import FuncNode, call_name, calls_in, dotted, own_exprs, unparse, walk_local
+from ..astutil import FuncNode, call_name, calls_in, dotted, own_exprs, test_atoms, unparse, walk_local
 from ..cfg import no_exc
 from ..oracles import load, python_mutators
 from ..report import Registry, sub
@@ -255,6 +255,15 @@ def r2(ctx):
                 if under and not stored:
                     problems.append("the value returned by the append event (validators may replace it) is not "
                                     "what is passed to the underlying call")
+                a0 = c.args[0] if c.args else None
+                if not (isinstance(a0, ast.Name) and a0.id == "self"):
+                    problems.append(f"append event `{unparse(c)[:50]}` is not fired for this collection (first argument is not self)")
+                a1 = c.args[1] if len(c.args) > 1 else None
+                if (isinstance(a1, ast.Name) and tgt is not None and a1.id != tgt
+                        and any(any(isinstance(a, ast.Name) and a.id == a1.id for a in uc.args) for _, uc in under)):
+                    problems.append(
+                        f"the append event is given `{a1.id}`, which the underlying call also receives as is, while its "
+                        f"result is stored as `{tgt}`: the announced item is not the member being inserted")
             # (b) append events before insertion
             if under_ids and e in ("add", "both"):
                 if not ev_nodes["set"]:
@@ -370,8 +379,10 @@ class _Prov:
     kind 'returned' -- derived from the value returned by the underlying call;
     kind 'unknown'  -- not understood."""
 
-    def __init__(self, kind, sel=None, at=None, why=""):
+    def __init__(self, kind, sel=None, at=None, why="", direct=False):
         self.kind, self.sel, self.at, self.why = kind, sel, at, why
+        #: the item IS the caller's argument (nothing was read from the collection to obtain it)
+        self.direct = direct
 
 
 def _wrapper_env(w):
@@ -450,7 +461,7 @@ class _Origin:
             return [_Prov("unknown", why="definition chain too deep")]
         if isinstance(e, ast.Name):
             if e.id in self.params:
-                return [_Prov("sel", sel=e.id)]
+                return [_Prov("sel", sel=e.id, direct=True)]
             defs = self.env.get(e.id)
             if not defs:
                 return [_Prov("unknown", why=f"`{e.id}` has no local definition")]
@@ -714,6 +725,265 @@ def r5(ctx):
             ctx.check(not problems, key, "; ".join(problems), "event skipped only under " + ", ".join(how), loc)
 
 
+#: (wrapper key, test text, outcome) whose branch legitimately ends the wrapper without touching the collection
+NOOP_BRANCHES = {
+    ("orm/collections.py::_list_decorators.__setitem__", "value is self", True):
+        "coll[:] = coll leaves a list unchanged (builtin semantics); nothing to apply, no event",
+}
+
+
+def _membership_outcome(test):
+    """('present'-edge label) of a plain `x in self` / `x not in self` test, else None"""
+    if isinstance(test, ast.Compare) and len(test.ops) == 1 and isinstance(test.ops[0], (ast.In, ast.NotIn)) \
+            and isinstance(test.comparators[0], ast.Name) and test.comparators[0].id == "self":
+        return "true" if isinstance(test.ops[0], ast.In) else "false"
+    return None
+
+
+@R.rule("C38-R6", floor=31, template="T-PATH",
+        desc="every wrapper applies the operation it wraps: each normal path from entry to exit passes the underlying "
+             "call, a delegation to an instrumented sibling mutator (self.X(..), self[k] = v, del self[k]), a loop over "
+             "such a delegation, an explicit no-mutation event, or `return NotImplemented`; the only other way out is "
+             "the 'already present' outcome of a membership test in an add-only mutator")
+def r6(ctx):
+    facs = _interfaces(ctx)
+    helpers = _event_helpers(ctx)
+    effects = load("python_mutator_effects.json")
+    for t in TYPES:
+        fac = facs[t]
+        decs = _decorators(ctx, fac)
+        eff = effects[t]
+        for mname in sorted(eff):
+            key = f"{fac.key}.{mname}:applied"
+            if mname not in decs:
+                ctx.ok(key, "no wrapper to examine (missing decorator is reported by C38-R1)", nontrivial=False)
+                continue
+            d, w, fnparam = decs[mname]
+            loc = f"{fac.module.path}:{w.lineno}"
+            g = ctx.cfg(w)
+            ev, under = _wrapper_calls(g, helpers, fnparam)
+
+            def applies(node):
+                """does AST `node` contain the underlying call or a delegation to an instrumented mutator"""
+                for n in [node] + list(walk_local(node)):
+                    if isinstance(n, ast.Call):
+                        nm = call_name(n) or ""
+                        if nm == fnparam:
+                            return True
+                        if nm.startswith("self.") and nm.count(".") == 1 and nm[5:] in decs and nm[5:] in eff:
+                            return True
+                    elif isinstance(n, (ast.Assign, ast.AugAssign)):
+                        for tg in (n.targets if isinstance(n, ast.Assign) else [n.target]):
+                            if isinstance(tg, ast.Subscript) and isinstance(tg.value, ast.Name) and tg.value.id == "self" \
+                                    and "__setitem__" in decs:
+                                return True
+                    elif isinstance(n, ast.Delete):
+                        for tg in n.targets:
+                            if isinstance(tg, ast.Subscript) and isinstance(tg.value, ast.Name) and tg.value.id == "self" \
+                                    and "__delitem__" in decs:
+                                return True
+                return False
+
+            markers = set(i for i, _ in under) | set(i for i, _ in ev["set_wo"])
+            cut = set()
+            for n in g.nodes:
+                if n.stmt is None or not isinstance(n.stmt, ast.stmt) or n.kind in ("with_exit", "handler", "join"):
+                    continue
+                if n.kind == "for":
+                    if any(applies(st) for st in n.stmt.body):
+                        markers.add(n.id)
+                    continue
+                if n.kind == "test" and isinstance(n.stmt, ast.While) and any(applies(st) for st in n.stmt.body):
+                    markers.add(n.id)
+                    continue
+                if n.kind == "test":
+                    test = n.stmt.test
+                    txt = unparse(test)
+                    for lab in ("true", "false"):
+                        if (fac.key + "." + mname, txt, lab == "true") in NOOP_BRANCHES:
+                            cut.add((n.id, lab))
+                    if eff[mname] == "add":
+                        lab = _membership_outcome(test)
+                        if lab is not None:
+                            cut.add((n.id, lab))
+                    continue
+                if isinstance(n.stmt, ast.Return) and isinstance(n.stmt.value, ast.Name) and n.stmt.value.id == "NotImplemented":
+                    markers.add(n.id)
+                    continue
+                if any(applies(p) for p in own_exprs(n.stmt)) or (isinstance(n.stmt, (ast.Assign, ast.AugAssign, ast.Delete)) and applies(n.stmt)):
+                    markers.add(n.id)
+
+            def edge_ok(a, b, lab):
+                return lab != "exc" and (a, lab) not in cut
+
+            wit = g.witness([g.entry], [g.exit], avoid=markers, edge_ok=edge_ok)
+            ctx.check(wit is None, key,
+                      f"{t}.{mname}: a normal path through the wrapper neither calls the underlying {t}.{mname} nor an "
+                      f"instrumented sibling: the collection is left unchanged (or events were fired for nothing): "
+                      + " -> ".join(g.describe_path(wit or [])[-4:]),
+                      f"{len(markers)} applying statement(s) cover every normal path", loc,
+                      g.describe_path(wit) if wit else None)
+
+
+@R.rule("C38-R7", floor=13, template="T-GUARD",
+        desc="a remove event fired BEFORE the underlying call is fired for a member only: the item was read from the "
+             "collection (self[k], an element of self / self[k]) or, when it is the caller's argument itself, the event "
+             "is dominated by `<arg> in self` (siblings set.remove/discard, dict.__delitem__); otherwise a call that "
+             "raises for a non-member (list.remove -> ValueError) has already announced a removal that never happens")
+def r7(ctx):
+    facs = _interfaces(ctx)
+    helpers = _event_helpers(ctx)
+    effects = load("python_mutator_effects.json")
+    for t in TYPES:
+        fac = facs[t]
+        decs = _decorators(ctx, fac)
+        removers = {m for m, e in effects[t].items() if e in ("remove", "both")}
+        for mname in sorted(removers | set(decs)):
+            key = f"{fac.key}.{mname}:remove-member-only"
+            if mname not in decs:
+                ctx.ok(key, "no wrapper to examine (missing decorator is reported by C38-R1)", nontrivial=False)
+                continue
+            d, w, fnparam = decs[mname]
+            g = ctx.cfg(w)
+            ev, under = _wrapper_calls(g, helpers, fnparam)
+            if not under:
+                continue
+            if not ev["del"]:
+                if mname in removers:
+                    ctx.ok(key, "no remove event in this wrapper (kind coverage is C38-R2's)", nontrivial=False)
+                continue
+            loc = f"{fac.module.path}:{w.lineno}"
+            org = _Origin(w, fnparam)
+            problems, how, n_pre = [], [], 0
+            for nid, c in ev["del"]:
+                after_ids = g.reachable([nid], edge_ok=no_exc, include_starts=False)
+                if not any(i in after_ids for i, _ in under):
+                    continue  # event after the call (pop style): C38-R5
+                n_pre += 1
+                if len(c.args) < 2:
+                    continue
+                for p in org.item(c.args[1], g.nodes[nid].stmt):
+                    if p.kind != "sel" or not p.direct:
+                        how.append("item read from the collection")
+                        continue
+                    atoms = set()
+                    for tst, pol in g.edge_guards(nid):
+                        for txt, apol in test_atoms(tst, pol):
+                            # a local flag computed from a membership test
+                            defs = org.env.get(txt, []) if txt.isidentifier() else []
+                            if len(defs) == 1 and defs[0][0] == "assign":
+                                atoms |= set(test_atoms(defs[0][1], apol))
+                            else:
+                                atoms.add((txt, apol))
+                    if (f"{p.sel} in self", True) in atoms:
+                        how.append(f"guarded by `{p.sel} in self`")
+                    else:
+                        problems.append(
+                            f"{t}.{mname}: the remove event for the caller's argument `{p.sel}` is fired before the underlying "
+                            f"call without `{p.sel} in self` being established: for a non-member the builtin raises / does "
+                            "nothing, but the event (listeners, backref, hasparent=False -> delete-orphan) has already "
+                            "announced its removal"
+                            + (f" (guards found: {sorted(atoms)})" if atoms else ""))
+            if n_pre:
+                ctx.check(not problems, key, "; ".join(dict.fromkeys(problems)), ", ".join(dict.fromkeys(how)), loc,
+                          nontrivial=any("guarded" in h for h in how) or bool(problems))
+            else:
+                ctx.ok(key, "remove event only after the underlying call (C38-R5)", nontrivial=False)
+
+
+MARK = "_sa_instrumented"
+
+
+def _marks_param(fn_node):
+    """does function `fn_node` unconditionally store `<its first parameter>._sa_instrumented = True`"""
+    if not fn_node.args.args:
+        return False
+    p0 = fn_node.args.args[0].arg
+    for st in fn_node.body:
+        if isinstance(st, ast.Assign) and isinstance(st.value, ast.Constant) and st.value.value is True:
+            for tg in st.targets:
+                if isinstance(tg, ast.Attribute) and tg.attr == MARK and isinstance(tg.value, ast.Name) and tg.value.id == p0:
+                    return True
+    return False
+
+
+def _marked_in(body, wname, helpers_):
+    """is the function named `wname` marked by a top-level statement of `body`"""
+    for st in body:
+        if isinstance(st, ast.Assign) and isinstance(st.value, ast.Constant) and st.value.value is True:
+            for tg in st.targets:
+                if isinstance(tg, ast.Attribute) and tg.attr == MARK and isinstance(tg.value, ast.Name) and tg.value.id == wname:
+                    return "direct store"
+        if isinstance(st, ast.Expr) and isinstance(st.value, ast.Call) and isinstance(st.value.func, ast.Name) \
+                and st.value.func.id in helpers_ and st.value.args \
+                and isinstance(st.value.args[0], ast.Name) and st.value.args[0].id == wname:
+            return f"via {st.value.func.id}()"
+    return None
+
+
+@R.rule("C38-R8", floor=35, template="T-PROTOCOL",
+        desc="single instrumentation: every wrapper produced by a decorator factory (and by "
+             "_instrument_membership_mutator) carries the `_sa_instrumented` marker before it is returned, and the "
+             "places that apply decorators / implicit appender-remover instrumentation test that marker first -- "
+             "otherwise a method is wrapped twice and every append/remove event fires twice")
+def r8(ctx):
+    from ..astutil import guard_atoms, lexical_guards
+    facs = _interfaces(ctx)
+    m = ctx.index.module(COLL)
+    pm = m.parents()
+    for t in TYPES:
+        fac = facs[t]
+        decs = _decorators(ctx, fac)
+        local_markers = {st.name for st in fac.node.body if isinstance(st, FuncNode) and _marks_param(st)}
+        mod_markers = {name for name, f in m.functions.items() if _marks_param(f.node)}
+        members, _order_only = python_mutators(t)
+        for mname in sorted(set(members) | set(decs)):
+            if mname not in decs:
+                ctx.ok(f"{fac.key}.{mname}:marked", "no wrapper to examine (missing decorator is reported by C38-R1)",
+                       nontrivial=False)
+                continue
+            d, w, _ = decs[mname]
+            how = _marked_in(d.body, w.name, local_markers | mod_markers)
+            ctx.check(how is not None, f"{fac.key}.{mname}:marked",
+                      f"the wrapper returned by {fac.name}().{mname} is never marked `{MARK}`: "
+                      "_setup_canned_roles/_assert_required_roles will wrap the method again (subclasses, the "
+                      "appender/remover roles) and each event fires twice",
+                      how or "", f"{fac.module.path}:{d.lineno}", nontrivial=False)
+    gen = ctx.func(f"{COLL}::_instrument_membership_mutator")
+    rets = [n for n in gen.node.body if isinstance(n, ast.Return) and isinstance(n.value, ast.Name)]
+    ctx.require(len(rets) == 1, f"{gen.key}: expected one top-level `return <wrapper>`")
+    how = _marked_in(gen.node.body, rets[0].value.id, {name for name, f in m.functions.items() if _marks_param(f.node)})
+    ctx.check(how is not None, f"{gen.key}:marked",
+              f"the generic wrapper returned by _instrument_membership_mutator is never marked `{MARK}`", how or "", gen.loc)
+    # consumers
+    scr = ctx.func(f"{COLL}::_setup_canned_roles")
+    sets = [c for c in calls_in(scr.node) if call_name(c) == "setattr" and len(c.args) == 3 and isinstance(c.args[2], ast.Call)]
+    ctx.require(sets, f"{scr.key}: `setattr(cls, method, decorator(fn))` not found")
+    for c in sets:
+        inner = c.args[2]
+        ctx.require(inner.args, f"{scr.key}: decorator application without argument")
+        arg = unparse(inner.args[0])
+        atoms = set(guard_atoms(lexical_guards(pm, c, stop=scr.node)))
+        ctx.check((f"hasattr({arg}, '{MARK}')", False) in atoms, f"{scr.key}:applies-once",
+                  f"`{unparse(c)}` is applied without `not hasattr({arg}, '{MARK}')`: an already instrumented method "
+                  "(inherited from an instrumented base class) is wrapped again and fires every event twice",
+                  "guarded by the marker test", f"{scr.module.path}:{c.lineno}")
+    arr = ctx.func(f"{COLL}::_assert_required_roles")
+    n_roles = 0
+    for n in walk_local(arr.node):
+        if not (isinstance(n, ast.Assign) and len(n.targets) == 1 and isinstance(n.targets[0], ast.Subscript)
+                and isinstance(n.targets[0].value, ast.Name) and n.targets[0].value.id == "methods"):
+            continue
+        role = unparse(n.targets[0].slice)
+        atoms = set(guard_atoms(lexical_guards(pm, n, stop=arr.node)))
+        n_roles += 1
+        ctx.check((f"hasattr(getattr(cls, {role}), '{MARK}')", False) in atoms, f"{arr.key}:{role}:implicit-once",
+                  f"implicit instrumentation `{unparse(n)[:70]}` is added without "
+                  f"`not hasattr(getattr(cls, {role}), '{MARK}')`: the canned {role} wrapper is wrapped a second time and its "
+                  "event fires twice", "guarded by the marker test", f"{arr.module.path}:{n.lineno}")
+    ctx.require(n_roles >= 2, f"{arr.key}: implicit appender/remover instrumentation not found")
+
+
 # --------------------------------------------------------------------------------- self-test
 # R1
 R.mutant("list-clear-decorator-removed", COLL,
@@ -749,6 +1019,10 @@ R.mutant("list-extend-raw", COLL,
 R.mutant("dict-setitem-insert-before-event", COLL,
          sub("            value = __set(self, value, _sa_initiator, key)\n            fn(self, key, value)\n",
              "            fn(self, key, value)\n            value = __set(self, value, _sa_initiator, key)\n"),
+         "C38-R2")
+R.mutant("dict-setitem-event-announces-key", COLL,
+         sub("            value = __set(self, value, _sa_initiator, key)\n            fn(self, key, value)\n",
+             "            value = __set(self, key, _sa_initiator, key)\n            fn(self, key, value)\n"),
          "C38-R2")
 # R3
 R.mutant("set-isub-adds", COLL,
@@ -796,7 +1070,65 @@ R.mutant("list-pop-skips-event-for-default-index", COLL,
          sub("            item = fn(self, index)\n            __del(self, item, None, index)\n            return item\n",
              "            item = fn(self, index)\n            if item == index:\n                return item\n            __del(self, item, None, index)\n            return item\n"),
          "C38-R5")
+# R6
+R.mutant("list-append-event-only", COLL,
+         sub("            item = __set(self, item, _sa_initiator, NO_KEY)\n            fn(self, item)\n",
+             "            item = __set(self, item, _sa_initiator, NO_KEY)\n"),
+         "C38-R6")
+R.mutant("set-update-fires-event-without-adding", COLL,
+         sub("        def update(self, value):\n            for item in value:\n                self.add(item)\n",
+             "        def update(self, value):\n            for item in value:\n                __set(self, item, None, NO_KEY)\n"),
+         "C38-R6")
+R.mutant("dict-setdefault-absent-not-stored", COLL,
+         sub("            if key not in self:\n                self.__setitem__(key, default)\n                return default\n",
+             "            if key not in self:\n                return default\n"),
+         "C38-R6")
+R.mutant("list-delitem-scalar-event-only", COLL,
+         sub("                item = self[index]\n                __del(self, item, None, index)\n                fn(self, index)\n",
+             "                item = self[index]\n                __del(self, item, None, index)\n"),
+         "C38-R6")
+# R7
+R.mutant("set-remove-event-without-membership-test", COLL,
+         sub("            # testlib.pragma exempt:__hash__\n            if value in self:\n                __del(self, value, _sa_initiator, NO_KEY)\n            # testlib.pragma exempt:__hash__\n            fn(self, value)\n",
+             "            # testlib.pragma exempt:__hash__\n            __del(self, value, _sa_initiator, NO_KEY)\n            # testlib.pragma exempt:__hash__\n            fn(self, value)\n"),
+         "C38-R7")
+R.mutant("set-discard-event-for-non-members", COLL,
+         sub("            if value in self:\n                __del(self, value, _sa_initiator, NO_KEY)\n                # testlib.pragma exempt:__hash__\n            fn(self, value)\n",
+             "            if value not in self:\n                __del(self, value, _sa_initiator, NO_KEY)\n                # testlib.pragma exempt:__hash__\n            fn(self, value)\n"),
+         "C38-R7")
+# R8
+R.mutant("list-tidy-no-marker", COLL,
+         sub("    def _tidy(fn):\n        fn._sa_instrumented = True\n        fn.__doc__ = getattr(list, fn.__name__).__doc__\n",
+             "    def _tidy(fn):\n        fn.__doc__ = getattr(list, fn.__name__).__doc__\n"),
+         "C38-R8")
+R.mutant("set-add-wrapper-not-tidied", COLL,
+         sub("        _tidy(add)\n        return add\n", "        return add\n"),
+         "C38-R8")
+R.mutant("canned-roles-wrap-without-marker-test", COLL,
+         sub("                and method not in methods\n                and not hasattr(fn, \"_sa_instrumented\")\n",
+             "                and method not in methods\n"),
+         "C38-R8")
+R.mutant("implicit-remover-without-marker-test", COLL,
+         sub("    elif roles[\"remover\"] not in methods and not hasattr(\n        getattr(cls, roles[\"remover\"]), \"_sa_instrumented\"\n    ):\n",
+             "    elif roles[\"remover\"] not in methods:\n"),
+         "C38-R8")
 # benign
+R.mutant("benign-dict-pop-marked-directly", COLL,
+         sub("            if _to_del:\n                __del(self, item, None, key)\n            return item\n\n        _tidy(pop)\n        return pop\n",
+             "            if _to_del:\n                __del(self, item, None, key)\n            return item\n\n        pop._sa_instrumented = True\n        pop.__doc__ = dict.pop.__doc__\n        return pop\n"),
+         None)
+R.mutant("benign-set-discard-membership-flag", COLL,
+         sub("            if value in self:\n                __del(self, value, _sa_initiator, NO_KEY)\n                # testlib.pragma exempt:__hash__\n            fn(self, value)\n",
+             "            present = value in self\n            if present:\n                __del(self, value, _sa_initiator, NO_KEY)\n                # testlib.pragma exempt:__hash__\n            fn(self, value)\n"),
+         None)
+R.mutant("benign-set-clear-while-loop", COLL,
+         sub("        def clear(self):\n            for item in list(self):\n                self.remove(item)\n",
+             "        def clear(self):\n            while len(self):\n                self.remove(next(iter(self)))\n"),
+         None)
+R.mutant("benign-list-insert-returns-result", COLL,
+         sub("            value = __set(self, value, None, index)\n            fn(self, index, value)\n",
+             "            value = __set(self, value, None, index)\n            result = fn(self, index, value)\n            return result\n"),
+         None)
 R.mutant("benign-delslice-named-selection", COLL,
          sub("                for item in self[index]:\n                    __del(self, item, None, index)\n",
              "                leaving = list(self[index])\n                for member in leaving:\n                    __del(self, member, None, index)\n"),
